@@ -9,6 +9,26 @@ from .symexec import Exec
 from . import extract
 
 
+def heap_closed(h: H):
+    """HEAP-CLOSED: a reference stored in a field of an allocated object is allocated (global invariant of the Python heap)"""
+    out = []
+    x = z3.Const('x!hc', Addr)
+    for a, t in h.schema.attrs.items():
+        if t.sort == Addr and not t.opt:
+            fx = h.f(a, x)
+            out.append(z3.ForAll([x], z3.Implies(z3.And(x >= 0, x < h.alloc), z3.And(fx >= 0, fx < h.alloc)), patterns=[fx]))
+        elif t.opt and t.kind in ('obj', 'list', 'dict', 'set'):
+            fx = h.f(a, x)
+            out.append(z3.ForAll([x], z3.Implies(z3.And(x >= 0, x < h.alloc, is_VRef(fx)), z3.And(v_a(fx) >= 0, v_a(fx) < h.alloc)),
+                                 patterns=[fx]))
+    v = z3.Const('v!hc', Val)
+    out.append(z3.ForAll([x, v], z3.Implies(z3.And(x >= 0, x < h.alloc, h.bag(x, v) > 0, is_VRef(v)),
+                                            z3.And(v_a(v) >= 0, v_a(v) < h.alloc)), patterns=[h.bag(x, v)]))
+    out.append(z3.ForAll([x, v], z3.Implies(z3.And(x >= 0, x < h.alloc, h.has(x, v), is_VRef(h.val(x, v))),
+                                            z3.And(v_a(h.val(x, v)) >= 0, v_a(h.val(x, v)) < h.alloc)), patterns=[h.val(x, v)]))
+    return out
+
+
 class FnReport:
     def __init__(self, key):
         self.key = key
@@ -55,6 +75,8 @@ def entry_state(ex: Exec, c: Contract, fnnode) -> State:
         if t.sort() == Addr:
             st.assume(z3.And(t >= 0, t < h0.alloc))
     ex.h0 = h0
+    for f in heap_closed(h0):
+        st.assume(f)
     pre = CCtx(h0, h0, ex.args, ex.ghosts)
     for (nm, f) in c.requires(pre):
         st.assume(f)
